@@ -17,10 +17,46 @@ Inductive case :=
    o_pu: UnmarshalWithDecoder of those bytes into a fresh pooled message, and the final capacity of its options. *)
 | Enc (coder : Z) (m : msg) (o_size : Z * Z) (o_bufs : list (Z * eobs * bool))
       (cap : Z) (o_dec : option dobs) (o_hdr : option hobs)
-      (o_pm : eobs) (o_pu : option (dobs * Z)).
+      (o_pm : eobs) (o_pu : option (dobs * Z))
+(* Stream buffer: the frames the stream coder produces for ms, back to back, followed by
+   [tail] (nothing, or the beginning of one more frame).  The buffer is taken apart from the
+   front: at each position Decode (option capacity cap), DecodeHeader and the pooled
+   UnmarshalWithDecoder see ALL the remaining bytes; the position advances by the count
+   Decode returned; at most |ms| + 1 positions.  o_frames: what was observed per position. *)
+| Strm (ms : list msg) (tail : list Z) (cap : Z) (o_frames : list (dobs * hobs * dobs)).
+
+(* the harness loop of a Strm case, on the model *)
+Fixpoint frames_obs (fuel : nat) (cap : Z) (data : list Z) : list (dobs * hobs * dobs) :=
+  match fuel with
+  | O => []
+  | S f =>
+    if blen data =? 0 then []
+    else
+      let r := tcp_decode cap data in
+      (dobs_of r, hobs_of (tcp_decode_header data), fst (pu_obs (pool_decode (pool_fuel data) tcp_decode 16 data))) ::
+      match r with
+      | Ok (_, n) => if (0 <? n) && (n <=? blen data) then frames_obs f cap (skipn (Z.to_nat n) data) else []
+      | _ => []
+      end
+  end.
+
+Fixpoint concat_some (l : list (option (list Z))) : option (list Z) :=
+  match l with
+  | [] => Some []
+  | None :: _ => None
+  | Some b :: r => match concat_some r with Some c => Some (b ++ c) | None => None end
+  end.
+
+Definition frame_obs_eqb (a b : dobs * hobs * dobs) : bool :=
+  let '(d1, h1, p1) := a in let '(d2, h2, p2) := b in dobs_eqb d1 d2 && hobs_eqb h1 h2 && dobs_eqb p1 p2.
 
 Definition agrees (c : case) : bool :=
   match c with
+  | Strm ms tail cap o_frames =>
+    match concat_some (map (model_bytes 1) ms) with
+    | Some bs => list_eqb frame_obs_eqb (frames_obs (S (length ms)) cap (bs ++ tail)) o_frames
+    | None => false
+    end
   | Enc coder m o_size o_bufs cap o_dec o_hdr o_pm o_pu =>
     let '(sk, sn) := size_obs (size_of coder m) in
     (sk =? fst o_size) && (sn =? snd o_size) &&
@@ -47,13 +83,40 @@ Definition agrees (c : case) : bool :=
    RFC encoding or memory after the buffer touched, 4 decode(encode m) differs
    from m or consumes a different length, 5 stream header pre-parse differs,
    6 pooled marshal/unmarshal differs, 7 message outside the preconditions
-   accepted, 9 datagram type 4..255 accepted and truncated (F9). *)
+   accepted, 9 datagram type 4..255 accepted and truncated (F9),
+   8 stream Decode of a buffer that continues after the frame: message differs or the
+   consumed count is not the number of bytes the encoder produced for that frame. *)
 Definition tcp_limit : Z := messageMaxLen.
 
 Definition view_of (coder : Z) (m : msg) : msg := if coder =? 0 then m else tcp_view m.
 
+(* expected observation for frame m at the front of a longer buffer, from Spec only *)
+Definition strm_class (m : msg) (o : dobs * hobs * dobs) : N :=
+  let '(d, h, p) := o in
+  let n := blen (spec_tcp_bytes m) in
+  if negb (dobs_eqb d (DOk (proj (tcp_view m)) n)) then 8%N
+  else if negb (match h with
+                | HOk hl ml code tok => (ml =? n) && (code =? m_code m) && bytes_eqb tok (m_tok m) && (hl =? n - blen (spec_body m))
+                | _ => false end) then 5%N
+  else if negb (dobs_eqb p (DOk (proj (tcp_view m)) n)) then 6%N
+  else 0%N.
+
+Fixpoint strm_classes (ms : list msg) (os : list (dobs * hobs * dobs)) : N :=
+  match ms with
+  | [] => 0%N
+  | m :: mr =>
+    match os with
+    | [] => 8%N      (* a frame that was produced was never returned *)
+    | o :: or => match strm_class m o with 0%N => strm_classes mr or | k => k end
+    end
+  end.
+
 Definition pclass (c : case) : N :=
   match c with
+  | Strm ms tail cap o_frames =>
+    if forallb (fun m => wf_tcp tcp_limit m && (blen (m_opts m) <=? cap)) ms
+    then strm_classes ms o_frames
+    else 0%N
   | Enc coder m o_size o_bufs cap o_dec o_hdr o_pm o_pu =>
     let wf := if coder =? 0 then wf_udp m else wf_tcp tcp_limit m in
     let big_tok := blen (m_tok m) >? 8 in
